@@ -100,6 +100,10 @@ class GotranPythonCodePrinter(PythonCodePrinter):
             value = f"numpy.logical_and({value}, {arg})"
         return value
 
+    def _print_Not(self, expr):
+        # Python's `not` needs a single truth value; stay elementwise
+        return f"numpy.logical_not({self._print(expr.args[0])})"
+
     def _print_Or(self, expr):
         args = [self._print(arg) for arg in expr.args]
         value = args[0]
